@@ -22,8 +22,8 @@ CLAIMS = {
   note="TTL<=1 carries no refresh obligation. World-level part (refresh queries, cache-flush rule, late wake-ups) is reported in the evidence when present.",
   ref="§6 C11"),
  "C16": dict(
-  technique="runtime round-trip monitor: generated property lists through every input type -> ServiceInfo::new -> TXT RDATA (facade) -> independent TXT parser and the crate's public decoder, compared with the given list",
-  text="Generated lists (empty/oversize/non-ASCII/'='-bearing keys, binary/empty/absent values, duplicates and case variants, sizes around 255) must either be refused at creation or arrive unchanged (keys, bytes, order, none-vs-empty, first duplicate wins, case-insensitive lookup); arbitrary and damaged byte strings must decode without panic into strings that lie inside the record.",
+  technique="runtime round-trip monitor: generated property lists through every input type -> ServiceInfo::new -> TXT RDATA (facade) -> independent TXT parser and the crate's public decoder, compared with the given list; end to end through a registering and a browsing daemon on one simulated link",
+  text="Generated lists (empty/oversize/non-ASCII/'='-bearing keys, binary/empty/absent values, duplicates and case variants, sizes around 255) must either be refused at creation or arrive unchanged (keys, bytes, order, none-vs-empty, first duplicate wins, case-insensitive lookup); arbitrary and damaged byte strings must decode without panic into strings that lie inside the record. End to end, thousands of accepted lists are registered on one daemon and must be reported unchanged (order, bytes, none-vs-empty, case-insensitive lookup) in the ServiceResolved of a second daemon, learned from the announcement or from the answer to its query.",
   note="A zero-length TXT string may be read as end-of-data or skipped. HashMap inputs holding case variants of one key are skipped (order undefined).",
   ref="§6 C16"),
  "C07": dict(
